@@ -449,7 +449,8 @@ def apply_op(mgr, op):
         mgr.put_workflow_params(SimpleNamespace(
             uuid_str=s['uuid'], is_paused=s['paused'],
             stop_clock_time=s['stop_clock_time'], stop_task=s['stop_task'],
-            pool=SimpleNamespace(stop_task_id=s['stop_task']),
+            pool=SimpleNamespace(stop_task_id=s['stop_task'],
+                                 hold_point=None),
             config=SimpleNamespace(
                 cycle_point_dump_format='CCYYMMDDThhmmZ',
                 initial_point=s['icp']),
